@@ -16,6 +16,7 @@ func genRecord(r *gen.Rand, c *Case) {
 	c.K = "record"
 	c.Shape = []string{"no-null", "all-null", "alternating", "random-null"}[r.Intn(4)]
 	c.seed = r.Uint64()
+	c.Seed = c.seed
 	c.Typ = r.Range(0, 70) // rows
 }
 
